@@ -1,6 +1,6 @@
 SPECIFICATION Spec
 CONSTANT Depth = 4
-CONSTANT Assume = {"A", "B", "C", "D", "E"}
+CONSTANT Assume = {"C", "D", "E"}
 CONSTRAINT Bound
 VIEW View
 INVARIANT Accepted
